@@ -128,6 +128,26 @@ def gen(ctx):
             out.append((form, f"({A}) && ({B})", doc, [A, B]))
         else:
             out.append((form, f"({A}) || ({B})", doc, [A, B]))
+    # deep compositions (65 .. 300 levels; stack exhaustion — known finding F12 — starts beyond 1000): parts that work alone must compose
+    for k in ([40, 66, 150] if ctx.tier == "quick" else [33, 40, 63, 64, 65, 66, 100, 129, 150, 257, 300, 600]):
+        leaf = G.enc_str("leaf")
+        nested = leaf
+        for _ in range(2 * k + 2):
+            nested = "{ s61 " + nested + " }"
+        path = lambda n: "a" + ".a" * (n - 1)
+        out.append(("pipe", path(k) + "." + path(k), nested, [path(k), path(k)]))
+        out.append(("pipe", "(" + path(k) + ") | (" + path(k) + ")", nested, [path(k), path(k)]))
+        out.append(("pipe", path(k) + " | " * 0 + "." + path(k + 2), nested, [path(k), path(k + 2)]))
+        out.append(("not", "!(" + "!" * k + "a)", nested, ["!" * k + "a"]))
+        out.append(("mlist", "[" + "[" * k + "a" + "]" * k + ", a, `1`]", "{ s61 u5 }", ["[" * k + "a" + "]" * k, "a", "`1`"]))
+        out.append(("or", "(" + "(" * k + "b" + ")" * k + ") || (" + "to_array(" * k + "a" + ")" * k + ")", "{ s61 u5 }",
+                    ["(" * k + "b" + ")" * k, "to_array(" * k + "a" + ")" * k]))
+        out.append(("and", "(" + "a && " * k + "a) && (" + "a || " * k + "b)", "{ s61 u5 }", ["a && " * k + "a", "a || " * k + "b"]))
+        arr = "u7"
+        for _ in range(k + 1):
+            arr = "[ " + arr + " ]"
+        out.append(("pipe", "(" + "[0]" * k + ") | ([0])", arr, ["[0]" * k, "[0]"]))
+        out.append(("wild", "(@)[*]." + "a" + ".a" * k, "[ " + nested + " " + nested + " ]", ["@", "a" + ".a" * k]))
     return out
 
 
